@@ -318,12 +318,16 @@ def gen_c15_world(seed, index, tier):
     elif x < 0.92:
         src = r.choice(py_files or file_names)
         y = r.random()
-        if y < 0.4:
+        if y < 0.35:
             out = 'w/out.min.py'
-        elif y < 0.7:
+        elif y < 0.6:
             out = r.choice(file_names)                       # an existing file
-        else:
+        elif y < 0.85:
             out = src                                        # the input itself
+        elif y < 0.93:
+            out = 'w/no-such-dir/out.py'                     # cannot be created
+        else:
+            out = r.choice(dirs)                             # a directory
         cmd['paths'] = [rel_to_cwd(src, cwd, absolute=absolute)]
         cmd['output'] = rel_to_cwd(out, cwd, absolute=absolute)
         if r.random() < 0.2:
